@@ -10,6 +10,122 @@ TECH = ("contract-based deductive verification: own VC generator (txvc) symbolic
 
 # pid -> (level text, level note, design ref, technique suffix)
 CLAIMED = {
+    "C05": (
+        "Proved: get_model returns the root (loop invariant root_of(p) == root_of(obj), variant depth) and the root has "
+        "no parent; get_parent_of_type returns the nearest ancestor whose class name is the given type. The traversal "
+        "closure get_children.follow is proved against its own recursive contract for every model, selector and "
+        "should_follow: no object is collected twice in the default parents-first order (invariant over the result "
+        "list), the id of every collected object is recorded, the result only grows at the end, an object already "
+        "collected is not visited again (no callback, no recursion), an object not yet recorded whose class is a textX "
+        "class and which the selector accepts IS collected and the selector is asked exactly once about it; per child "
+        "(two region units): a child is visited only through a CONTAINMENT attribute - a reference attribute never "
+        "introduces children - only if should_follow accepts it, and every such child is visited; get_children returns "
+        "the fresh list filled by one traversal from the root, get_children_of_type forwards root and options. "
+        "NOT proved: 'exactly once' for children_first=True (needs containment to be a forest), the parent == container "
+        "link set by process_node, and the global statement 'equals the pre/post-order of the containment tree' - a "
+        "bounded battery (reference traversal written from the statement, 2 models incl. user classes with value "
+        "equality and a user class reused by a second metamodel, 2 orders, 4 selector/should_follow pairs) covers "
+        "those end to end, reported separately and never counted as proved.",
+        "Partial. Callbacks (selector, should_follow) are External: assumed not to touch the result list, the id set "
+        "or the _tx_attrs of classes. Recursion is by contract (partial correctness; termination needs acyclic "
+        "containment). Iterating an untyped attribute value assumes it is a list (A-WD).",
+        "DESIGN.md 5/C05, 11.7", "bounded battery with the real API for the global order/completeness statement"),
+    "C17": (
+        "Proved: GlobalModelRepository.load_model parses a file only if it is known neither locally nor globally, "
+        "returns the globally registered model (identity of a cached model preserved) and makes it locally visible iff "
+        "requested; pre_ref_resolution_callback registers a freshly parsed model under its absolute file name BEFORE its "
+        "own imports are followed and gives it a repository sharing all_models (this is what ends import cycles); the "
+        "search-path and file-pattern loaders register the importing model before any import is loaded and load every "
+        "import through load_model with the importer's parameters; ImportURI / GlobalRepo import-following steps go "
+        "through the importing model's repository; internal_model_from_file returns the cached model of a file without "
+        "opening or parsing it when the metamodel has a global repository; ImportURI.__call__ searches the model itself "
+        "first, a hit wins and ends the search, then (per-step region units) each loaded model and each builtin model is "
+        "searched for the same reference and the first hit is returned at once.",
+        "The loops over loaded / builtin models are used through their per-step units (the order 'loaded before "
+        "builtin' is the order of the two loops in the source); the wrapped scope provider, glob, os.path and the file "
+        "system are External. 'Every reference points to the single instance' follows from load-once + cache identity; "
+        "end to end it is checked by the native battery (diamond + cycle, search-path cycle, lookup order, cached reload).",
+        "DESIGN.md 5/C17, 11.7", ""),
+    "C20": (
+        "Proved (the /repo side): every matcher built for a grammar literal gets the metamodel's ignore_case - "
+        "visit_str_match in both branches (contracts/c21.py) and visit_re_match (RegExMatch(group(1), "
+        "ignore_case=metamodel.ignore_case), compiled before use); TextXVisitor.__init__ compiles the keyword pattern "
+        "with re.IGNORECASE iff ignore_case; visit_textx_model creates the model parser with the metamodel's "
+        "ignore_case / skipws / ws / autokwd / memoization; the terminal branch of process_node hands node.value (or "
+        "group 1 under use_regexp_group) unchanged to the match processor - values keep the case they were written in. "
+        "What a matcher with ignore_case does with the input is Arpeggio / re: assumed, validated by a bounded battery "
+        "(random case mutations of all literal text of a grammar with keywords, escaped literals, regex literals and "
+        "separators, autokwd on/off), reported separately and never counted as proved.",
+        "Partial claim: matcher semantics trusted (T-ARP, A-RE). TextXMetaModel.__contains__ is used through an assumed "
+        "contract (pure bool).",
+        "DESIGN.md 5/C20, 11.7", "bounded battery with the real parser for the assumed matcher semantics"),
+    "C09": (
+        "Proved: (1) the resolution rounds of the main-model phase of parse_tree_to_objgraph terminate - loop variant "
+        "pending() (cross-references of the load still to resolve) strictly decreases whenever another round follows "
+        "(inner-loop invariant pending == pending_at_round_start - resolved_count; VAR obligation), given the contract "
+        "of resolve_one_step that the references it counts as resolved leave the pending lists; (2) the phase returns "
+        "normally only when the last round left nothing postponed, otherwise it raises (error report units: every model "
+        "and every delayed reference of it is visited, the text only grows); (3) one step of resolve_one_step (loop-body "
+        "region unit, every provider behaviour): a reference is counted as resolved exactly when it is not postponed, "
+        "it then leaves the pending list and its target is stored, a postponed one stays pending, is recorded as "
+        "delayed and its attribute is left alone. NOT proved: that the resolved set is the least fixpoint of the "
+        "providers' dependency relation ('succeeds exactly when some order exists', order independence) - a bounded "
+        "battery (every dependency graph over <= 3 postponable references, one or two files, real loader) stands in "
+        "for it, reported separately and never counted as proved.",
+        "Partial claim. Assumed (A-PENDING): resolve_one_step as a whole removes exactly the counted references from "
+        "the pending lists - proved per reference on the loop body, the summation over the loop is the modular "
+        "structure, not a solver obligation; providers terminate and add no cross-references. The fixpoint/exactly-when "
+        "half of the statement is bounded only. That the error text contains each reference name was attempted as a "
+        "quantified string invariant and left undecided by z3 and cvc5 (not claimed).",
+        "DESIGN.md 5/C09, 11.7", "bounded battery with the real loader for the fixpoint half"),
+    "C18": (
+        "Proved, as a chain of contracts over the real functions: (1) main-model phase of parse_tree_to_objgraph: on "
+        "EVERY exceptional exit (provider error, unresolvable references, assertion, user __init__, object processor) "
+        "remove_models_from_repositories is called exactly once, last, with the list of models of this load (computed "
+        "before resolution, so still complete after construction has ended) as both arguments; nothing is removed on "
+        "success; (2) parse_tree_to_objgraph as a whole (the phase used by contract): once the model object exists every "
+        "failure - callback, loading of imports, resolution, processors, tool-support tables - ends in "
+        "_remove_all_affected_models_in_construction(model) as the last action, a failure while the object graph is "
+        "built and a success remove nothing; (3) _remove_all_affected_models_in_construction removes exactly the "
+        "included models that still carry the under-construction marker (filter facts, both directions); "
+        "(4) TextXMetaModel._call_model_processors: a failing model processor removes exactly the models whose files "
+        "were not cached before the load (snapshot by _known_model_files, both directions), earlier models stay; "
+        "internal_model_from_file / model_from_str take the snapshot before anything is loaded and run the processors "
+        "through that wrapper; (5) GlobalModelRepository.remove_model removes from both repositories, "
+        "ModelRepository.remove_model: the model is gone, every other entry untouched, nothing added.",
+        "remove_models_from_repositories / GlobalModelRepository.remove_models (two loops over models) are used through "
+        "an assumed contract (they forward to remove_model; not yet under contract). User code (providers, processors, "
+        "callbacks, __init__) is External: assumed not to re-insert models into repositories. 'The next load succeeds "
+        "with correct identities' is checked only by the native replay battery (five failure kinds).",
+        "DESIGN.md 5/C18, 11.7", ""),
+    "C06": (
+        "Proved (the part that is /repo code): (1) process_node copies the span of the parse node that created an object "
+        "into _tx_position / _tx_position_end (two assignment regions); (2) get_location reports line/col of "
+        "_tx_position computed by the ROOT model's parser, nchar == end - start and the root model's file name, for every "
+        "object and every depth (get_model's loop invariant); (3) the text those offsets refer to is the caller's text: "
+        "get_model_from_str hands model_str unchanged to Parser.parse, model_from_str / internal_model_from_file hand the "
+        "given string (or exactly what open(abspath(file), encoding=...).read() returned) unchanged to it. "
+        "NOT proved, assumed (T-ARP): that Arpeggio's node positions delimit exactly the matched non-empty text, nest and "
+        "are ordered; a bounded battery of loads with the real parser (LF/CRLF/tabs/comments, strings and files, three "
+        "configurations) checks the end-to-end statement and is reported separately, never counted as proved.",
+        "Partial claim: non-emptiness, nesting and ordering of spans are properties of Arpeggio's parse tree (assumed, "
+        "bounded battery only). Attribute stores on objects under construction are plain stores (A-PLAIN-ATTR; the "
+        "instrumented user-class path is C14).",
+        "DESIGN.md 5/C06, 11.7", "bounded battery with the real parser for the assumed node positions"),
+    "C16": (
+        "Proved: TextXModelParser.clone returns a NEW parser object of the same class and language whose parse-dependent "
+        "containers (_inst_stack, _crossrefs, _instances, comments, comment_positions, sem_actions) are fresh and empty "
+        "and not shared with the blueprint, and it writes nothing on the blueprint (FRAME: modifies nothing); "
+        "model_from_str and internal_model_from_file run every load on blueprint.clone(), never on the blueprint, hand the "
+        "caller's arguments through unchanged, and with a global repository return the cached model of a file without "
+        "parsing; get_model_from_str passes its own parser and the caller's arguments to the object-graph builder and "
+        "instruments user classes exactly once per load, balanced on every failing path.",
+        "Partial claim (DESIGN.md 5/C16): no frame for the whole pipeline. Arpeggio state re-initialised by Parser.parse "
+        "(T-ARP), the grammar-parser cache of language_from_str, shared base-type rule objects and the registries are not "
+        "covered; 'structurally equal to a fresh process' therefore rests on the clone/blueprint separation plus C14/C15 "
+        "(instrumentation restored) and C18 (repositories cleaned), not on one end-to-end theorem. copy.copy is an "
+        "engine primitive (new object, same class, same attribute row).",
+        "DESIGN.md 5/C16, 11.7", ""),
     "C33": (
         "Exceptional postcondition of TextXMetaModel.process proved for every processor behaviour "
         "(return/raise, any exception class, any pre-set location fields) and every argument value: "
